@@ -39,7 +39,8 @@ def run_case(case, res):
     K, p, U = case
     U = list(U)
     n = len(U) - p - 1
-    prm = al.params(U, p)
+    prm0 = al.params(U, p)
+    prm = prm0
     outside = [U[0] - 1, U[-1] + F(1, 2)]
 
     # (a) per-span coefficient table (internal API; skipped, not alarmed, if absent)
@@ -92,6 +93,13 @@ def run_case(case, res):
             continue
         # exactness is promised for Fraction knots; int knots go through true division and are compared as floats
         exact = rep == "frac"
+        if rep in ("float", "npfloat"):
+            # floats 1e-10 left and right of every interior knot: the value must be the one of the span the parameter
+            # really lies in (matters where the curve jumps)
+            near = [lib.to_frac(float(k) + d) for k in rb.knots_of(U)[1:-1] for d in (-1e-10, 1e-10)]
+            prm = prm0 + [u for u in near if U[0] < u < U[-1]]
+        else:
+            prm = prm0
         expect = [rb.value(U, P, u, W, p) for u in prm]
         # scalar calls
         for u, ex in zip(prm, expect):
@@ -136,7 +144,7 @@ def run_case(case, res):
                 res.outcome("outside_" + (out[1] if out[0] == "raise" else "value"))
         if lib.snap_curve(c) != lib.snap_curve(lib.mk_curve(U, P, W, rep)):
             res.violation("mutated", f"evaluation changed the curve U={U}", rep=rep)
-    for u in prm:
+    for u in prm0:
         tab = rb.coxdeboor_all(U, p, u)
         if u == U[-1] or rb.mult(U, u) >= 2 or sum(1 for x in tab if x != 0) >= 2:
             res.nontriv((U, u))
